@@ -8,5 +8,7 @@ TwoCentres == {[k \in 1..D |-> 0], [k \in 1..D |-> IF k = 1 THEN 1 ELSE IF k = 2
 \* with Eps = 2: degenerate, narrow (width 1), exactly at the threshold (width 2), and wide pairs
 SixPairs == {<<0, 0>>, <<-1, 0>>, <<0, 1>>, <<-1, 1>>, <<-1, 2>>, <<-2, 2>>}
 ThreePairs == {<<0, 0>>, <<-1, 1>>, <<-1, 2>>}
+\* 3-D: degenerate (widened to <<-1, 1>>) and wide asymmetric
+TwoPairs == {<<0, 0>>, <<-1, 2>>}
 OneCentre == {[k \in 1..D |-> IF k = 1 THEN 1 ELSE IF k = 2 THEN -1 ELSE 2]}
 =============================================================================
